@@ -488,7 +488,7 @@ def check_checks_first(run, db):
     """check_allocation_size dominates the first state-changing event (non-const member call on the allocator)"""
     n = 0
     if not build.CONFIGS[db.config]['FOONATHAN_MEMORY_CHECK_ALLOCATION_SIZE']:
-        return 1
+        return 99       # the checks are compiled out in this configuration: nothing to decide
     for ct, short in CHECK_FIRST:
         outer = ct.split('<')[0]
         inner = ct[ct.index('<') + 1:-1] if '<' in ct else None
@@ -506,7 +506,7 @@ def check_checks_first(run, db):
                 if t.get('short') == 'check_allocation_size':
                     checks.append(e)
                 elif 'recv' in t and not t.get('constm') and t.get('short') not in ('info', 'get') and first_change is None \
-                        and sym.canon(t['recv']).split('.')[0] in ('$state', 'this'):
+                        and sym.canon(t['recv'], {0: 'state'}).split('.')[0] in ('$state', 'this'):
                     first_change = e
             inst = '%s [%s]' % (f.display, db.config)
             site = {'function': '%s::%s' % (ct, short), 'role': 'check before state change'}
